@@ -760,6 +760,10 @@ def gen_request(rng: random.Random, world: dict, *, prefer_formulas=True, allow_
         return ["calculate", v["name"], pick(rng, _REQ_DAYS)]
     if u == "eternity":
         return ["calculate", v["name"], pick(rng, ["2018-01", "2018"])]
+    if u in ("week", "weekday") and numeric and allow_options and chance(rng, 0.15):
+        # summed over a year (weeks and weekdays come from the period algebra, not from text;
+        # 2015 and 2020 have a week 53)
+        return ["calculate_add", v["name"], pick(rng, ["2020", "2015", "2018"] if u == "week" else ["2020-12", "2015-12"])]
     return ["calculate", v["name"], period_for_unit(rng, u)]
 
 
